@@ -70,3 +70,68 @@ pub fn try_unchecked_exact<S: Src, const SIDE: u8, const KG: u8>(s: &mut S) {
     vcover!("legal move", want);
     vcover!("illegal semilegal move", !want);
 }
+
+/// list-returning legal generators under the abstract legality predicate (S6), GEN(K) on FULL:
+/// occurrences of the symbolic target in `legal::gen_X(b)` = [pseudo-legal, in class X, accepted by A].
+/// With `prefiltered_legal_exact` (A = the rules) this is "exactly the legal moves, each once".
+/// Natively (replay) the real generator is compared with the rules directly.
+pub fn legal_gen_list<S: Src, const SIDE: u8, const G: u8, const K: u32>(s: &mut S) {
+    use crate::c06::*;
+    use owlchess::movegen::legal;
+    crate::stubs::draw_hash_pool(s);
+    let b = match any_board(s, SIDE) {
+        Some(b) => b,
+        None => return,
+    };
+    vassume!(gen_bound(&b, K));
+    let p = pos_of(b.raw());
+    let t = any_m(s);
+    let ans = s.bool();
+    crate::s6::reset(mv_of(t), ans);
+    let list = match G {
+        G_ALL => legal::gen_all(&b),
+        G_CAPTURE => legal::gen_capture(&b),
+        G_SIMPLE => legal::gen_simple(&b),
+        G_SIMPLE_NO_PROMOTE => legal::gen_simple_no_promote(&b),
+        _ => legal::gen_simple_promote(&b),
+    };
+    let mut count = 0u32;
+    let mut i = 0;
+    while i < list.len() {
+        if list[i] == mv_of(t) {
+            count += 1;
+        }
+        i += 1;
+    }
+    #[cfg(kani)]
+    {
+        let want = semilegal_ref(&p, t) && class_ref(&p, t, G) && ans;
+        vassert!("legal list = pseudo-legal moves of the class accepted by the filter, each exactly once", count == want as u32);
+        vassert!("the filter is asked exactly once about each generated move", unsafe { crate::s6::T_ASKED } == (semilegal_ref(&p, t) && class_ref(&p, t, G)) as u32);
+        vcover!("target kept", want);
+        vcover!("target generated but filtered out", semilegal_ref(&p, t) && class_ref(&p, t, G) && !ans);
+    }
+    #[cfg(not(kani))]
+    {
+        let want = legal_ref(&p, t) && class_ref(&p, t, G);
+        vnote!("fen={} target={:?} occurrences={} rules say {}", b.as_fen(), mv_of(t), count, want);
+        vassert!("legal list = legal moves of the class, each exactly once", count == want as u32);
+        // and the whole list, exhaustively
+        let mut n = 0usize;
+        for kind in 1..10u8 {
+            for cell in 1..13u8 {
+                for src in 0..64u8 {
+                    for dst in 0..64u8 {
+                        let m = M { kind, cell, src, dst };
+                        if p.cells[src as usize] == cell && legal_ref(&p, m) && class_ref(&p, m, G) {
+                            n += 1;
+                            vassert!("every legal move of the class is in the list", list.iter().filter(|x| **x == mv_of(m)).count() == 1);
+                        }
+                    }
+                }
+            }
+        }
+        vassert!("the list holds nothing else", n == list.len());
+    }
+    core::mem::forget(list);
+}
